@@ -295,6 +295,64 @@ pub fn replay(behaviours: &str, scratch: &str, with_pruned: bool, trace: &mut Nd
     }
 }
 
+/// Replay of one recorded directory case: the tree is materialised again (same names, same contents, same listing
+/// order), the per-file results are measured again, the real analyze_dir runs again; the record goes to TV_DirWalk.
+pub fn replay_case(case: &Value, corpus_dir: &str, scratch: &str, trace: &mut NdjsonWriter, out: &mut Outcome) {
+    let rec = if case.get("trace_record").is_some() { &case["trace_record"] } else { case };
+    let mut texts: BTreeMap<String, String> = base_contents();
+    texts.insert("w_old".to_string(), W_OLD.to_string());
+    texts.insert("w_new".to_string(), W_NEW.to_string());
+    if let Ok(rd) = fs::read_dir(corpus_dir) {
+        for e in rd.flatten() {
+            if let Ok(t) = fs::read_to_string(e.path()) {
+                texts.insert(e.file_name().to_string_lossy().to_string(), t);
+            }
+        }
+    }
+    // every eligible file must refer to a content we still have
+    fn ids(v: &Value, acc: &mut Vec<String>) {
+        for e in v["entries"].as_array().cloned().unwrap_or_default() {
+            if e["kind"] == "dir" {
+                ids(&e["tree"], acc);
+            } else if let Some(c) = e["content"].as_str() {
+                acc.push(c.to_string());
+            }
+        }
+    }
+    let mut used = vec![];
+    ids(&rec["tree"], &mut used);
+    let mut contents: BTreeMap<String, String> = BTreeMap::new();
+    for c in used.iter().filter(|c| !c.starts_with("hostile")) {
+        match texts.get(c) {
+            Some(t) => {
+                contents.insert(c.clone(), t.clone());
+            }
+            None => {
+                out.tool_error(format!("replay: content {} of the recorded tree is no longer available", c));
+                return;
+            }
+        }
+    }
+    let pats = as_strs(&rec["pats"]);
+    let cat = rec["cat"].as_str().unwrap_or("optimizations").to_string();
+    let res = match measure(&contents, &pats) {
+        Some(v) => v,
+        None => {
+            out.violate("dirwalk-replay:file-panics", "a detector panics on a file of the recorded tree analysed alone".into(), case.clone());
+            return;
+        }
+    };
+    let mut salt = 0usize;
+    // ineligible names keep hostile bytes; eligible ones their recorded content
+    let mut all = contents.clone();
+    for c in used.iter().filter(|c| c.starts_with("hostile")) {
+        all.insert(c.clone(), String::new());
+    }
+    let entries = build(&rec["tree"], &all, &mut salt);
+    let mut runner = Runner { scratch: PathBuf::from(scratch), counter: 900000 };
+    runner.run(&cat, &pats, &entries, &res, rec.get("pruned_result").is_some(), "replay", trace, out);
+}
+
 const C16_NAMES: [&str; 22] = [
     "A.sol", "a.SOL", "A.Sol", "A.sol.txt", "A.solx", ".sol", "sol", "A.t.sol", "A.T.SOL", "A.T.sol", "A.t.Sol", "t.sol", "At.sol",
     "A.tsol", "A.sol~", "A sol", "\u{c4}.sol", "README.md", "A.json", "B.sol", "Mock.t.sol", "x.T.Sol",
